@@ -5,8 +5,8 @@
    same comment-free print); the re-reading of the printed text by the 45-rule lexer is a
    hypothesis of C10_idempotent_of_reparse, checked on the real formatter by the harness
    (format(format x) = format x on every accepted text).  The full statements are FALSE of the
-   faithful model: witnesses below (doc strings re-indented on every pass; a comment after the last
-   match pair dropped on the second pass; a bare CR). *)
+   faithful model: witnesses below (doc strings re-indented on every pass; a bare CR).  Repaired: the
+   comment after the last match pair is no longer dropped on the second pass (example below). *)
 From FP Require Import PT Flatten Tokens Lexer Parser Formatter FmtDefs FmtDoc FmtSafe FmtPure FmtErase FmtDocProofs FmtProofs.
 From Coq Require Import String List NArith.
 Import ListNotations.
@@ -41,10 +41,10 @@ Theorem C10_idempotent_refuted_w : ~ C10_idempotent.
 Proof. exact (C10_idempotent_refuted). Qed.
 Print Assumptions C10_idempotent_refuted_w.
 
-(* recorded finding: the full statement fails on this witness *)
-Theorem C10_idempotent_comment_refuted_w : ~ idempotent_at (runes_of_string match_comment_text).
-Proof. exact (C10_idempotent_comment_refuted). Qed.
-Print Assumptions C10_idempotent_comment_refuted_w.
+(* repaired finding: the former witness is a fixed point of the formatter *)
+Theorem C10_match_comment_idempotent_example_thm : idempotent_at (runes_of_string match_comment_text).
+Proof. exact (C10_match_comment_idempotent_example). Qed.
+Print Assumptions C10_match_comment_idempotent_example_thm.
 
 (* recorded finding: the full statement fails on this witness *)
 Theorem C10_layout_cr_witness_w :
